@@ -1583,7 +1583,14 @@ class Kconfig(object):
                                 self.report.add_record(DefaultValuesArea, sym_or_choice=sym, promptless=True)
                 # If value is supposed to be a default and symbol has a prompt, save it for later
                 elif any(node.prompt is not None for node in sym.nodes):
-                    sym.present_in_current_sdkconfig = True
+                    if sym.choice and val == "n":
+                        # An n-valued choice symbol does not make its choice "present in this sdkconfig" (see the
+                        # present_in_current_sdkconfig setter). Do not ask the setter: it would look at the symbol's
+                        # current value, which at this point may still come from Kconfig defaults that depend on
+                        # options assigned further down in the file, and report a bogus multiple assignment.
+                        sym._present_in_current_sdkconfig = True
+                    else:
+                        sym.present_in_current_sdkconfig = True
                     if is_main_sdkconfig:
                         sym._sdkconfig_value = val
                         sym._loaded_as_default = True
